@@ -548,6 +548,15 @@ inline Res exec_awskeys(const Args &a) {
     fprintf(stderr, "HARNESS-ERROR: cannot create the scratch file\n");
     exit(3);
   }
+  // one case in sixteen: the file does not exist and its name is full of printf conversions (a name is data, never a format)
+  if ((fnv64(in) & 15) == 9) {
+    char *id0 = nullptr, *sec0 = nullptr;
+    int rc0 = shim_aws_readkeys("/nonexistent-%s%s%s%s%n%n-dir/%d%s/keys %5$s %n", &id0, &sec0);
+    if (rc0 != -1) r.fail("aws-missing-file", "aws_readkeys on a file that does not exist did not return -1");
+    r.c("missing file whose name contains printf conversions");
+    free(id0), free(sec0);
+    if (!r.ok) return r;
+  }
   char *id = nullptr, *sec = nullptr;
   // one file in eight: everything reads fine and the final fclose() reports an error (the stream is gone all the same)
   bool fcf = (fnv64(in) & 7) == 5;
@@ -632,6 +641,14 @@ inline Res exec_readpass(const Args &a) {
   if (!path) {
     fprintf(stderr, "HARNESS-ERROR: cannot create the scratch file\n");
     exit(3);
+  }
+  if ((fnv64(in) & 15) == 9) {
+    char *pw9 = nullptr;
+    int rc9 = shim_readpass_file("/nonexistent-%s%s%s%s%n%n-dir/%d%s/pass %5$s %n", &pw9);
+    if (rc9 != -1) r.fail("readpass-missing-file", "readpass_file on a file that does not exist did not return -1");
+    r.c("missing file whose name contains printf conversions");
+    free(pw9);
+    if (!r.ok) return r;
   }
   char *pw = nullptr;
   bool fcf = (fnv64(in) & 7) == 5;
